@@ -1,4 +1,5 @@
 import GinjaxVerif.Lemmas.C07Build
+import GinjaxVerif.Lemmas.C07Train
 import GinjaxVerif.Properties.C08
 import GinjaxVerif.Properties.C09
 import Mathlib.Algebra.Order.Field.Rat
@@ -39,52 +40,6 @@ namespace GinjaxVerif.C07
 open GinjaxVerif GinjaxVerif.C20 GinjaxVerif.Layer
 
 variable {R : Type} {d : Nat}
-
-/-! ### extensional equality of multi-images -/
-
-/-- same keys in the same order, same extents and flags, and blockwise `Blk.Equiv` with the order of
-the key -/
-def MI.Equiv (a b : MI R d) : Prop :=
-  a.dims = b.dims ∧ a.torus = b.torus ∧
-    List.Forall₂ (fun e' e => e'.1 = e.1 ∧ (toBlk e.1 e'.2).Equiv (toBlk e.1 e.2)) a.blocks b.blocks
-
-theorem rel_iff_equiv_act [CommRing R] (g : SP d) (y' y : MI R d) :
-    Rel g y' y ↔ MI.Equiv y' (act g y) := by
-  constructor
-  · rintro ⟨h1, h2, h3⟩
-    refine ⟨h1, h2, ?_⟩
-    show List.Forall₂ _ y'.blocks (List.map _ y.blocks)
-    rw [List.forall₂_map_right_iff]
-    exact h3
-  · rintro ⟨h1, h2, h3⟩
-    refine ⟨h1, h2, ?_⟩
-    have h3' : List.Forall₂ _ y'.blocks (List.map _ y.blocks) := h3
-    rw [List.forall₂_map_right_iff] at h3'
-    exact h3'
-
-theorem rel_iff_equiv_tgeAct [CommRing R] (g : SP d) (y' y : MI R d) :
-    Rel g y' y ↔ MI.Equiv y' (tgeAct g.mat y) := by
-  have key : ∀ (e' e : Ty × Block R d),
-      (e'.1 = e.1 ∧ BRel g e.1 e'.2 e.2) ↔
-      (e'.1 = e.1 ∧ (toBlk e.1 e'.2).Equiv (toBlk e.1 (tgeBlock g.mat e.1 e.2))) := by
-    intro e' e
-    have hb : toBlk e.1 (tgeBlock g.mat e.1 e.2) = tgeBlk g.mat e.1.2 (toBlk e.1 e.2) := rfl
-    rw [hb]
-    constructor
-    · rintro ⟨hk, h⟩; exact ⟨hk, h.trans (tgeBlk_equiv_pfBlk g e.1.2 _).symm⟩
-    · rintro ⟨hk, h⟩; exact ⟨hk, h.trans (tgeBlk_equiv_pfBlk g e.1.2 _)⟩
-  constructor
-  · rintro ⟨h1, h2, h3⟩
-    refine ⟨by rw [h1]; exact (rotDims_mat' g y.dims).symm,
-      by rw [h2]; exact (transport_mat' g y.torus).symm, ?_⟩
-    show List.Forall₂ _ y'.blocks (List.map _ y.blocks)
-    rw [List.forall₂_map_right_iff]
-    exact List.Forall₂.imp (fun e' e h => (key e' e).1 h) h3
-  · rintro ⟨h1, h2, h3⟩
-    refine ⟨h1.trans (rotDims_mat' g y.dims), h2.trans (transport_mat' g y.torus), ?_⟩
-    have h3' : List.Forall₂ _ y'.blocks (List.map _ y.blocks) := h3
-    rw [List.forall₂_map_right_iff] at h3'
-    exact List.Forall₂.imp (fun e' e h => (key e' e).2 h) h3'
 
 /-! ### the main theorem -/
 
@@ -207,5 +162,235 @@ theorem unet_equivariant (g : SP d) (F : Fns R d) (hS : ConjEquivariant F.S) (θ
   net_equivariant g F hS _ x hx (mkUNet_wellFormed θ g x.torus c h x.dims hN hdiv) hgen y hy
 
 end Classes
+
+/-! ### training: the hypothesis `hC07` of C09, discharged -/
+
+section Trained
+variable [Field R] [LinearOrder R]
+
+/-- **C09's `trained_equivariant` with `hC07` instantiated by `net_equivariant`.**  A model whose plan
+has no pooling and is well formed (bank aside) on all inputs with positive extents — every `ResNet`,
+`DilResNet`, `ConvBlock` (`planOK_of_wfSame`) — and whose bank leaves are invariant under the group
+`{g | S g}` is, after ANY training history (arbitrary new values of all parameters at every step, any
+common factor on the bank leaves), strictly equivariant as a map into multi-images modulo extensional
+equality: `evalQ (g • x) = g • evalQ x`. -/
+theorem trained_net_equivariant (S : SP d → Prop) (hSinv : ∀ g, S g → S g.inv) (F : Fns R d)
+    (hS : ConjEquivariant F.S) (m : C09.Model (Net R d) (ParamFam R) (FB R d)) (hwf : PlanOK m.plan)
+    (hm : C09.BankInvariant (Subtype S) m) (us : List (C09.Update (ParamFam R) R)) :
+    C09.Equivariant (Subtype S)
+      (evalQ F (C09.train m us).plan (C09.train m us).params (C09.train m us).bank) :=
+  C09.trained_equivariant PlanOK (evalQ F) (hC07_discharged S hSinv F hS) m hwf hm us
+
+/-- the same for the model `train` returns (best-model selection) -/
+theorem returned_net_equivariant (S : SP d → Prop) (hSinv : ∀ g, S g → S g.inv) (F : Fns R d)
+    (hS : ConjEquivariant F.S) (choose : List (C09.Model (Net R d) (ParamFam R) (FB R d)) → Nat)
+    (m : C09.Model (Net R d) (ParamFam R) (FB R d)) (hwf : PlanOK m.plan)
+    (hm : C09.BankInvariant (Subtype S) m) (us : List (C09.Update (ParamFam R) R)) :
+    C09.Equivariant (Subtype S)
+      (evalQ F (C09.trainReturn choose m us).plan (C09.trainReturn choose m us).params
+        (C09.trainReturn choose m us).bank) :=
+  C09.returned_equivariant PlanOK (evalQ F) (hC07_discharged S hSinv F hS) choose m hwf hm us
+
+/-- **every trained model, pooling included (U-Net).**  The max-uniqueness hypothesis depends on the
+input and on the trained parameter values, so it cannot be put into the `∀ x` shape of `hC07`; the
+statement is therefore per input: after any training history of a model with invariant bank leaves,
+the network commutes with every `g` of the group on every consistent input at which the plan is well
+formed (bank aside) and the pooling patches have unique maxima. -/
+theorem trained_model_equivariant (S : SP d → Prop) (F : Fns R d) (hS : ConjEquivariant F.S)
+    (m : C09.Model (Net R d) (ParamFam R) (FB R d)) (hm : C09.BankInvariant (Subtype S) m)
+    (us : List (C09.Update (ParamFam R) R)) (g : SP d) (hg : S g) (x : MI R d) (hx : x.Consistent)
+    (hwf : WellFormedPlan x.torus m.plan x.dims)
+    (hgen : PoolGeneric F (netOf (C09.train m us).plan (C09.train m us).params (C09.train m us).bank) x)
+    (y : MI R d)
+    (hy : eval F (netOf (C09.train m us).plan (C09.train m us).params (C09.train m us).bank) x = some y) :
+    ∃ y', eval F (netOf (C09.train m us).plan (C09.train m us).params (C09.train m us).bank) (act g x)
+        = some y' ∧ MI.Equiv y' (act g y) := by
+  obtain ⟨hb, hp⟩ := C09.train_inv (G := Subtype S) m us hm
+  refine net_equivariant g F hS _ x hx ?_ hgen y hy
+  apply wellFormed_netOf S _ _ _ hb g hg
+  rw [hp]; exact hwf
+
+end Trained
+
+/-- the plans of the constructors satisfy `PlanOK` / `WellFormedPlan` -/
+theorem planOK_of_wfSame [CommRing R] (g : SP d) (net : Net R d) (hnp : NoPool net)
+    (h : ∀ (torus : Fin d → Bool) (N : Fin d → Nat), (∀ j, 0 < N j) → WFSame g torus net N) :
+    PlanOK net :=
+  ⟨hnp, fun torus N hN => wellFormedPlan_of_wellFormed g torus net N (h torus N hN).1⟩
+
+theorem planOK_mkResNet [CommRing R] (g : SP d) (θ : ParamFam R) (c : NetArgs R d) (h : NetOK g c) :
+    PlanOK (mkResNet θ c) :=
+  planOK_of_wfSame g _ (noPool_mkResNet θ c) (fun torus N hN => mkResNet_wfSame θ g torus c h N hN)
+
+theorem planOK_mkDilResNet [CommRing R] (g : SP d) (θ : ParamFam R) (c : NetArgs R d) (h : NetOK g c) :
+    PlanOK (mkDilResNet θ c) :=
+  planOK_of_wfSame g _ (noPool_mkDilResNet θ c) (fun torus N hN => mkDilResNet_wfSame θ g torus c h N hN)
+
+theorem wellFormedPlan_mkUNet [CommRing R] (g : SP d) (θ : ParamFam R) (c : NetArgs R d)
+    (h : UNetOK g c) (torus : Fin d → Bool) (N : Fin d → Nat) (hN : ∀ j, 0 < N j)
+    (hdiv : ∀ j, 2 ^ c.numDown ∣ N j) : WellFormedPlan torus (mkUNet θ c) N :=
+  wellFormedPlan_of_wellFormed g torus _ N (mkUNet_wellFormed θ g torus c h N hN hdiv)
+
+/-! ### non-vacuity -/
+
+section Examples
+
+/-- filters of side `M`: the constant scalar filter and the Kronecker delta `δ_{uv}` (constant in
+space) as the order-2 filter; invariant under every element of `B_d` -/
+def exBank (d M : Nat) : MImg ℚ d :=
+  [((0, 0), ⟨1, fun _ => M, fun _ _ _ => 1⟩),
+   ((2, 0), ⟨1, fun _ => M, fun _ _ T => match T with
+      | [u, v] => if u = v then 1 else 0
+      | _ => 0⟩)]
+
+theorem exBank_invariant {d : Nat} (g : SP d) (M : Nat) : BankInv g (fun _ => M) (exBank d M) := by
+  refine ⟨fun _ => rfl, ?_⟩
+  intro key F hF f a T _ hT
+  unfold exBank at hF
+  simp only [Layer.lookup] at hF
+  split at hF
+  · rename_i hk
+    cases hF; subst hk
+    have : T = [] := List.eq_nil_of_length_eq_zero hT
+    subst this
+    simp [pf]
+  · split at hF
+    · rename_i _ hk
+      cases hF; subst hk
+      match T, hT with
+      | [u, v], _ =>
+        simp only [pf, pow_zero, List.map_cons, List.map_nil, SP.sgn_cons, SP.sgn_nil, mul_one,
+          EmbeddingLike.apply_eq_iff_eq]
+        by_cases huv : u = v
+        · subst huv
+          have := g.s_mul_self u
+          have h2 : ((g.s u : Int) : ℚ) * ((g.s u : Int) : ℚ) = 1 := by
+            rw [← Int.cast_mul, this]; simp
+          simp [h2]
+        · simp [huv]
+    · cases hF
+
+def exF : Fns ℚ 2 := { act := id, sqrtF := id, absF := id, rsqrt := id, max0 := id, S := id }
+
+def exArgs : NetArgs ℚ 2 :=
+  { inSig := [((0, 0), 1), ((1, 0), 1)], outSig := [((1, 0), 1)], mid := [((0, 0), 2), ((1, 0), 2)],
+    depth := 2, bias := .auto, act := true, groupNorm := true, bank := exBank 2 3, M := 3,
+    upBank := exBank 2 2, upM := 2, numDown := 1, numConv := 1, numBlocks := 1, preact := true,
+    epsNorm := 1 / 100000, epsVN := 1 / 100000 }
+
+theorem exArgs_ok (g : SP 2) : UNetOK g exArgs :=
+  { odd := rfl, midNodup := by decide, outNodup := by decide, inv := exBank_invariant g 3,
+    norm := by intro _; decide, upM := rfl, upInv := exBank_invariant g 2 }
+
+def exθ : ParamFam ℚ :=
+  { convW := fun id s t o c f => (id.length : ℚ) + s.1 + 2 * t.1 + o - c + f + 1,
+    convB := fun _ t o => (t.1 : ℚ) + o + 1, normScale := fun _ _ c => (c : ℚ) + 2,
+    normBias := fun _ _ c => (c : ℚ) - 1, vnW := fun _ _ i j => (i : ℚ) + 2 * j + 1 }
+
+def exX : MI ℚ 2 :=
+  { blocks := [((0, 0), ⟨1, fun _ => 4, fun _ y _ => 1 + y 0 - 3 * y 1⟩),
+               ((1, 0), ⟨1, fun _ => 4, fun _ y T => y 0 + 2 * y 1 + (T.headD 0).val⟩)]
+    dims := fun _ => 4, torus := fun j => j = 0 }
+
+
+/-- the hypotheses of `mkUNet_wellFormed` / `resnet_equivariant` … hold for this configuration and EVERY
+`g ∈ B_2` (pseudo-free signature `{(0,0),(1,0)} → {(1,0)}`, group norm, pre-activation order, one
+down-sampling) -/
+example (g : SP 2) (θ : ParamFam ℚ) (torus : Fin 2 → Bool) :
+    WellFormed g torus (mkUNet θ exArgs) (fun _ => 4) ∧ WellFormed g torus (mkResNet θ exArgs) (fun _ => 4)
+      ∧ WellFormed g torus (mkDilResNet θ exArgs) (fun _ => 4) :=
+  ⟨mkUNet_wellFormed θ g torus exArgs (exArgs_ok g) _ (fun _ => by decide) (fun _ => by decide),
+   mkResNet_wellFormed θ g torus exArgs (exArgs_ok g).toNetOK _ (fun _ => by decide),
+   mkDilResNet_wellFormed θ g torus exArgs (exArgs_ok g).toNetOK _ (fun _ => by decide)⟩
+
+/-- and the forward passes evaluate on a concrete input with one toroidal and one ordinary axis -/
+example : (eval exF (mkResNet exθ exArgs) exX).isSome = true ∧
+    (eval exF (mkUNet exθ exArgs) exX).isSome = true := by decide
+
+/-- so `resnet_equivariant` has an instance with a real output `y` -/
+example (g : SP 2) : ∃ y, eval exF (mkResNet exθ exArgs) exX = some y ∧
+    ∃ y', eval exF (mkResNet exθ exArgs) (act g exX) = some y' ∧ MI.Equiv y' (act g y) := by
+  cases h : eval exF (mkResNet exθ exArgs) exX with
+  | none =>
+    have : (eval exF (mkResNet exθ exArgs) exX).isSome = true := by decide
+    rw [h] at this; cases this
+  | some y =>
+    refine ⟨y, rfl, ?_⟩
+    refine resnet_equivariant g exF conjEquivariant_id exθ exArgs (exArgs_ok g).toNetOK exX ?_ ?_ y h
+    · intro e he
+      simp only [exX, List.mem_cons, List.mem_nil_iff, or_false] at he
+      rcases he with rfl | rfl <;> rfl
+    · intro j; show 0 < 4; decide
+
+/-- `PlanOK` is satisfiable: the hypothesis of `trained_net_equivariant` on the plan -/
+example (θ : ParamFam ℚ) : PlanOK (mkResNet θ exArgs) :=
+  planOK_mkResNet SP.one θ exArgs (exArgs_ok SP.one).toNetOK
+
+/-- a 2×2 scalar image with values 1, 2, 3, 4 -/
+def exRamp : MI ℚ 2 :=
+  { blocks := [((0, 0), ⟨1, fun _ => 2, fun _ y _ => y 0 + 2 * y 1 + 1⟩)]
+    dims := fun _ => 2, torus := fun _ => true }
+
+def exSmallArgs : BlockArgs ℚ 2 :=
+  { inKeys := [((0, 0), 1)], outKeys := [((0, 0), 2), ((1, 0), 1)], bias := .auto, act := true,
+    bank := exBank 2 3, M := 3, groupNorm := true, epsNorm := 1 / 100000, epsVN := 1 / 100000 }
+
+/-- `MaxNormPool(2)` followed by a `ConvBlock` with `LayerNorm` and `VectorNeuronNonlinear` -/
+def exSmall : Net ℚ 2 := .seq (.maxNormPool 2) (mkConvBlock exθ [] exSmallArgs)
+
+theorem exRamp_unique : PoolUnique 2 exRamp := by
+  intro e he
+  simp only [exRamp, List.mem_singleton] at he
+  subst he
+  intro c _ y hy
+  have hy0 := hy 0
+  have hy1 := hy 1
+  simp only [toBlk] at hy0 hy1
+  have y0 : y 0 = 0 := by omega
+  have y1 : y 1 = 0 := by omega
+  refine ⟨fun _ => 1, fun j => by simp, ?_⟩
+  intro b hb hne
+  have hb0 : 0 ≤ b 0 ∧ b 0 < ((2 : Nat) : Int) := hb 0
+  have hb1 : 0 ≤ b 1 ∧ b 1 < ((2 : Nat) : Int) := hb 1
+  have hn : ¬ (b 0 = 1 ∧ b 1 = 1) := by
+    rintro ⟨h0, h1⟩
+    apply hne
+    funext i
+    fin_cases i
+    · exact h0
+    · exact h1
+  have c0 : b 0 = 0 ∨ b 0 = 1 := by omega
+  have c1 : b 1 = 0 ∨ b 1 = 1 := by omega
+  simp only [normSq, sumIdx, toBlk, Blk.img, patchPix, y0, y1]
+  rcases c0 with h0 | h0 <;> rcases c1 with h1 | h1
+  · simp [h0, h1]; norm_num
+  · simp [h0, h1]; norm_num
+  · simp [h0, h1]; norm_num
+  · exact absurd ⟨h0, h1⟩ hn
+
+
+/-- a net WITH pooling satisfying `WellFormed` (for every `g ∈ B_2`) and `PoolGeneric` on a concrete
+input on which it evaluates: `net_equivariant` applies to it -/
+theorem exSmall_wellFormed (g : SP 2) : WellFormed g exRamp.torus exSmall exRamp.dims := by
+  refine ⟨fun _ => (by decide : 2 ∣ 2), ?_⟩
+  intro N' hN'
+  simp only [outDims, Option.some.injEq] at hN'
+  subst hN'
+  exact mkConvBlock_wellFormed exθ [] g _ exSmallArgs
+    { pad := rfl, ld := rfl, odd := rfl, nodup := by decide, inv := exBank_invariant g 3,
+      norm := by intro _; decide } _ (fun _ => (by decide : 0 < 2 / 2))
+
+theorem exSmall_poolGeneric : PoolGeneric exF exSmall exRamp :=
+  ⟨exRamp_unique, fun y _ => poolGeneric_of_noPool exF _ (noPool_mkConvBlock exθ [] exSmallArgs) y⟩
+
+example : (eval exF exSmall exRamp).isSome = true := by decide
+
+example (g : SP 2) (y : MI ℚ 2) (hy : eval exF exSmall exRamp = some y) :
+    ∃ y', eval exF exSmall (act g exRamp) = some y' ∧ MI.Equiv y' (act g y) :=
+  net_equivariant g exF conjEquivariant_id exSmall exRamp
+    (by intro e he; simp only [exRamp, List.mem_singleton] at he; subst he; rfl)
+    (exSmall_wellFormed g) exSmall_poolGeneric y hy
+
+end Examples
 
 end GinjaxVerif.C07
